@@ -3,7 +3,7 @@ import ast
 
 from sa import astq
 from sa.astq import norm_text, affine
-from sa.idioms import guarded, reach_under, attr_truth
+from sa.idioms import guarded, reach_under, attr_truth, none_test
 from sa.project import dotted, walk_local, AnalysisError
 
 EXPLANATION = (
@@ -152,21 +152,34 @@ def r3(run, ctx):
                 isinstance(n.ast.targets[0], ast.Name):
             names[n.ast.targets[0].id] = n.ast.value
 
+    from sa.dataflow import reaching_defs
+    rd = reaching_defs(ctx, f)
+
     def suffix(v):
-        # "%s.%d" % (self._filename, X)  ->  affine of X
-        if isinstance(v, ast.BinOp) and isinstance(v.op, ast.Mod) and \
-                isinstance(v.right, ast.Tuple) and len(v.right.elts) == 2 and \
-                norm_text(v.right.elts[0]) == 'self._filename':
-            return affine(v.right.elts[1], {iv: 'I'})
+        # f'{self._filename}.{X}'  ->  affine of X
+        if isinstance(v, ast.JoinedStr) and len(v.values) == 3 and \
+                isinstance(v.values[0], ast.FormattedValue) and \
+                norm_text(v.values[0].value) == 'self._filename' and \
+                isinstance(v.values[1], ast.Constant) and v.values[1].value == '.' and \
+                isinstance(v.values[2], ast.FormattedValue):
+            return affine(v.values[2].value, {iv: 'I'})
+        if isinstance(v, ast.BinOp) and isinstance(v.op, ast.Add) and \
+                norm_text(v.left) == "self._filename + '.'" and isinstance(v.right, ast.Call) and \
+                dotted(v.right.func) == 'str' and len(v.right.args) == 1:
+            return affine(v.right.args[0], {iv: 'I'})
         return None
+
+    def one_suffix(node, e):
+        alts = rd.expand(node, e, stop=(iv,))
+        vals = [suffix(a.expr) for a in alts]
+        return vals[0] if len(vals) == 1 else None
     ren = [n for n in cfg.nodes if n.id in body and any(dotted(c.func) == 'os.rename'
                                                         for c in n.calls())]
     if run.need('R3', ren, 'os.rename in the shift loop', f):
         for n in ren:
             c = [c for c in n.calls() if dotted(c.func) == 'os.rename'][0]
             s_, d_ = c.args
-            ss = suffix(names.get(norm_text(s_))) if isinstance(s_, ast.Name) else suffix(s_)
-            ds = suffix(names.get(norm_text(d_))) if isinstance(d_, ast.Name) else suffix(d_)
+            ss, ds = one_suffix(n, s_), one_suffix(n, d_)
             run.check('R3', ss == {'I': 1} and ds == {'I': 1, '': 1}, 'each step renames .i to '
                       '.(i+1)', f, n.ast, 'the shift renames suffix %s to %s' % (ss, ds),
                       construct='shift rename step')
@@ -262,20 +275,27 @@ def r5(run, ctx):
     t = norm_text(wf.node)
 
     def tf(e):
-        if isinstance(e, ast.Compare) and norm_text(e.left) == 'self._time_format' and \
-                isinstance(e.ops[0], ast.IsNot):
-            return True
-        return None
-    pre = [n for n in ctx.live_nodes(wf) if n.kind == 'stmt' and isinstance(n.ast, ast.Assign) and
-           norm_text(n.ast.targets[0]) == 'prefix']
+        r = none_test(e, 'self._time_format')
+        return None if r is None else (not r)
+    from sa.dataflow import reaching_defs
+    rd = reaching_defs(ctx, wf)
+    pre = []
+    for n in ctx.live_nodes(wf):
+        if n.kind == 'stmt' and isinstance(n.ast, ast.Assign) and \
+                isinstance(n.ast.value, ast.JoinedStr):
+            pre.append(n)
     if run.need('R5', pre, 'prefix construction in write_data', wf):
-        v = pre[0].ast.value
-        kws = {k.arg: norm_text(k.value) for k in getattr(v, 'keywords', [])}
-        fmt = astq.const_value(v.func.value, '') if isinstance(v, ast.Call) and \
-            isinstance(v.func, ast.Attribute) else ''
-        run.check('R5', '{time}' in fmt and '{pid}' in fmt and kws.get('pid') == "data['pid']" and
-                  kws.get('time') == 'time', 'the prefix holds the timestamp and the pid of the '
-                  'record', wf, pre[0].ast, 'the line prefix is %s with %s' % (fmt, kws))
+        for alt in rd.expand(pre[0], pre[0].ast.value):
+            parts = astq.fstring_parts(alt.expr) or []
+            shape = [p if isinstance(p, str) else '{}' for p in parts]
+            vals = [p[0] for p in parts if not isinstance(p, str)]
+            stamp_ok = len(vals) == 2 and vals[0].endswith('.strftime(self._time_format)') and (
+                vals[0].startswith("self.fromtimestamp(data['timestamp'])") or
+                vals[0].startswith('self.now()'))
+            run.check('R5', shape == ['{}', ' [', '{}', '] | '] and stamp_ok and
+                      vals[1] == "data['pid']", 'the prefix holds the timestamp and the pid of '
+                      'the record', wf, pre[0].ast, 'the line prefix is %s' % alt.text()[:160],
+                      construct='line prefix shape')
         run.check('R5', guarded(cfg, pre[0], tf, True), 'the prefix is built only with a '
                   'time_format', wf, pre[0].ast)
     steps = ["file_data = prefix + file_data.rstrip('\\n')",
